@@ -5,6 +5,7 @@ package main
 import (
 	"fmt"
 	"go/ast"
+	"strconv"
 	"strings"
 )
 
@@ -238,7 +239,25 @@ func nonNegTerm(t *Term) (bool, string) {
 		switch t.Name {
 		case "+", "*", "/", "<<":
 			if t.Name == "<<" {
-				return a, "shift of " + wa
+				// a left shift keeps the sign only while it does not overflow: by a small constant it does (configured
+				// durations are far below 2^40 ns), by the view number it does not — the view is a byte and 10 s << 28
+				// already is negative — unless the amount is capped
+				amt := t.Args[1]
+				switch {
+				case amt.K == KConst:
+					if n, err := strconv.Atoi(amt.S); err == nil && n >= 0 && n <= 8 {
+						return a, "shift of " + wa
+					}
+				case amt.K == KCall && amt.Name == "min":
+					for _, x := range amt.Args {
+						if x.K == KConst {
+							if n, err := strconv.Atoi(x.S); err == nil && n >= 0 && n <= 20 {
+								return a, "capped shift of " + wa
+							}
+						}
+					}
+				}
+				return false, "SHIFT-OVERFLOW: " + wa + " is shifted left by " + amt.S + ", which is not bounded: for high views the int64 duration overflows and becomes negative"
 			}
 			return a && b, wa + t.Name + wb
 		case "-":
@@ -284,6 +303,8 @@ func ruleTimeoutNonNeg(c *RC) *RuleResult {
 				arg := sn.Args[len(sn.Args)-1]
 				if ok, why := nonNegTerm(arg); ok {
 					r.ok(fmt.Sprintf("%s@%s: %s — %s", s.Fn.Name, c.Prog.Pos(s.Node), arg.S, why))
+				} else if strings.Contains(why, "SHIFT-OVERFLOW: ") {
+					r.fail(s.Fn.Name+"/duration-shift-overflow", c.Prog.Pos(s.Node), "duration "+arg.S+" may be negative: "+why[strings.Index(why, "SHIFT-OVERFLOW: ")+len("SHIFT-OVERFLOW: "):])
 				} else {
 					r.fail(s.Fn.Name+"/duration", c.Prog.Pos(s.Node), "duration "+arg.S+" may be negative: "+why)
 				}
